@@ -93,7 +93,9 @@ func (w *World) CheckCacheWrite(prop string, c *ClientInfo, file string, data []
 				"client %d cached %q with record #%d %q which is not included in any validly signed head delivered to the client; faults fired: %v", c.ID, file, id, text, w.Res.Faults)
 			return
 		}
-		if _, ok := ValidSignedHead([]byte(rest)); !ok {
+		// An empty tree-head part is accepted: the client treats it as the unsigned empty timeline and
+		// authenticates the record against the head it already holds, so nothing unauthenticated is stored.
+		if _, ok := ValidSignedHead([]byte(rest)); !ok && rest != "" {
 			w.Res.Fail(prop, "cache-head-signed", "lookup file cached with a tree head that is not validly signed",
 				"client %d cached %q whose tree head part has no valid signature by the configured key; faults fired: %v", c.ID, file, w.Res.Faults)
 		}
